@@ -268,6 +268,12 @@ func (u *VerifUniverse) SimplifySummary(g *EscapeGraph) *EscapeGraph {
 	return gg
 }
 
+// IsSubnode reports whether universe node i is registered as a subnode of some node (EscapeGraph.IsSubnode).
+func (u *VerifUniverse) IsSubnode(i int) bool {
+	_, ok := u.Group.globalNodes.parent[u.Nodes[i]]
+	return ok
+}
+
 type verifLoadOp struct{ op string }
 
 // VerifWellFormed runs the package's own wellFormedEscapeGraph.
